@@ -1,4 +1,5 @@
 """C14 — rlib_rand: integer/float range draws, seeds and copies, shuffle."""
+import re
 import struct
 import subprocess
 import math
@@ -82,14 +83,27 @@ RULE = ("gen_from_u64 as a pure function: i8/u8 over (start,end) pairs (all 6553
         "generator (small, even, zero, MAX, swapped constants), from_seed in const / static / thread_local initialisers. "
         "Through the existing case types: raw streams of 257..4097 outputs, copies after 255..4096 draws in the five ways of "
         "duplicating, a 1030-draw stream of a small range, real-Rng shuffles of 13..1000 elements, scripted shuffles of "
-        "257..1000 elements with raws choosing the top index, scripted shuffles whose slice holds Strings / [u64;5] / u8 / "
-        "Box / is the middle of a longer vector (executor-internal checks print X, which no model value equals), and "
+        "257..1000 elements with raws choosing the top index, shuffles whose slice holds another element kind than i64 "
+        "(50 kinds, executor macro with_elem!: Strings, boxes, Vec<u8>, (u64, String), u8/u16/u32/usize/u128/f64, plain byte "
+        "and word arrays of 8, 15, 17, 31, 33, 63, 64 | 65, 72, 80, 127, 128, 129, 136, 255, 257, 1024, 4096, 4097 bytes, "
+        "records with mixed fields of 24..1024 bytes, nested arrays [[u32; M]; N] and [[[u8; K]; M]; N] of 64..1152 bytes, "
+        "records aligned to 64 / 128, non-Copy records of 40, 64, 120, 1024 bytes whose drops are counted, the middle of a "
+        "longer vector; every element carries its start position and a pattern derived from it; the executor prints the "
+        "line the i64 run must print, so the same Coq terms decide it, or X - which no model value equals and no "
+        "specification accepts - when an element is damaged, duplicated, lost, dropped during the shuffle or not exactly "
+        "once afterwards, padding is touched): with the scripted source (random scripts; EVERY script of a 3-slice on every "
+        "kind above 64 bytes, every script of a 4-slice on eight of them, the others in rotation; 257/300-slices), with the "
+        "real Rng (random seeds, lengths 0..8 and 64..300; the seed lists that must reach all 6 / 24 orders on EVERY kind "
+        "above 64 bytes, all 6 on the small kinds, all 120 orders of a 5-slice of 80-byte arrays and of 120-byte counted "
+        "records) and inside histories (consecutive shuffles of big elements alternating with plain ones: the state left "
+        "behind is the model's); the search counts the orders of 3/4/5-slices of every big kind over 1200..6000 seeds, and "
         "from_time() (must behave as from_seed(s) for an s between two clock readings; a later call has a later seed). "
         "Every case runs in the debug and the release profile. non-trivial = some raw >= range length on a non-empty "
         "range (the remainder really reduces), a float draw on a non-empty range, a stream/shuffle/history of length >= 2")
 TRUSTED = ["executor harness/crates/c14 (calls Randomable::gen_from_u64, Rng::{from_seed,from_time,next_raw,next,shuffle} and the "
            "same methods of eight other LinearCongruentialGenerator64<A, C>, a scripted implementation of the public Rand "
-           "trait; floats as to_bits/from_bits; its internal checks: tags of shuffled non-i64 elements, untouched padding "
+           "trait; floats as to_bits/from_bits; its internal checks: tags and fill patterns of shuffled non-i64 elements of 50 kinds "
+           "(sizes 1..4097 bytes reported by the executor and compared with the plugin's table in prepare()), drop counts, untouched padding "
            "around a shuffled sub-slice, the search of from_time's seed between two clock readings, Cell/by-value round trips)",
            "checks/c14.py (case generator, Coq term printer, the table of constants (A, C) per generator name)"]
 ASSUMPTIONS = ["integers of a Rust type are their mathematical value in Z, (signedness, width) explicit; usize/isize are 64-bit",
@@ -178,7 +192,8 @@ def harness_line(c):
     if k == "time":
         return "time"
     if k == "shufr":
-        return "shufr %d %d %s" % (c["n"], len(c["seeds"]), " ".join(str(s) for s in c["seeds"]))
+        return "shufr %d %d %s%s" % (c["n"], len(c["seeds"]), " ".join(str(s) for s in c["seeds"]),
+                                     (" " + c["elem"]) if c.get("elem") else "")
     raise ValueError(k)
 
 
@@ -193,7 +208,7 @@ def mop_token(o):
     if kind == "k":
         return "k:%d" % o["n"]
     if kind == "s":
-        return "s:%d" % o["n"]
+        return "s:%d%s" % (o["n"], (":" + o["elem"]) if o.get("elem") else "")
     if kind == "c":
         return "c:%s" % o["how"]
     raise ValueError(kind)
@@ -255,6 +270,10 @@ def coq_term(c, obs, profile):
             return "(CCopy %s %d%%N [(-1)] [(-2)])" % (z(c["seed"]), c["kk"])
         if k == "shufs":
             return "(CShufS %s %s (Some %s))" % (zl(c["raws"]), zl(c["v"]), zl(list(c["v"]) + [424242]))
+        if k == "shufr":
+            # a damaged / duplicated / dropped element: no rearrangement of 0..n, no model value
+            return "(%s %d%%N [(%s,%s)])" % ("CShufAll" if c.get("all") else "CShufR", c["n"], z((c["seeds"] or [0])[0]),
+                                             zl(list(range(c["n"])) + [424242]))
     if k == "int":
         pairs = ";".join("(%s,%s)" % (z(r), oz(o)) for r, o in zip(c["raws"], t[1:]))
         return "(CInt %s %s [%s])" % (ty_term(c), form_term(c), pairs)
@@ -338,7 +357,7 @@ def classify(c, obs):
         return "shufs/len%d/%s%s" % (len(c["v"]), "panic" if obs == "P" else "ok",
                                      ("/" + c["elem"].split()[0]) if c.get("elem") else "")
     if k == "shufr":
-        return "shufr/len%d%s" % (c["n"], "/all-orders" if c.get("all") else "")
+        return "shufr/len%d%s%s" % (c["n"], "/all-orders" if c.get("all") else "", ("/" + c["elem"]) if c.get("elem") else "")
     return k
 
 
@@ -566,9 +585,8 @@ def gen_shuffles(rng, tier, cases):
                 raws.append(rng.next())
         c = {"k": "shufs", "raws": raws, "v": v}
         if rng.chance(2, 5):
-            # the same shuffle on a slice of Strings / [u64; 5] / u8 / Box / the middle of a longer vector
-            e = rng.choice(ELEMS)
-            c["elem"] = e if e != "sub" else "sub %d %d" % (rng.choice([0, 1, 3]), rng.choice([0, 1, 2]))
+            # the same shuffle on a slice of another element kind (ELEMS) / the middle of a longer vector
+            c["elem"] = pick_elem(rng)
         cases.append(c)
     # every script of index choices for short slices: each of the n! scripts must give a different order
     for m in (2, 3, 4):
@@ -578,12 +596,19 @@ def gen_shuffles(rng, tier, cases):
         for i, sc in enumerate(scripts):
             cases.append({"k": "shufs", "raws": sc, "v": list(range(m))})
             if m >= 3:
-                # ... and on the other element types (j == i, the swap of an element with itself, occurs in 1/2 .. 1/4 of them)
-                e = ELEMS[i % len(ELEMS)]
-                cases.append({"k": "shufs", "raws": sc, "v": [10 * x - 7 for x in range(m)], "elem": e if e != "sub" else "sub 2 1"})
+                # ... and on the other element kinds (j == i, the swap of an element with itself, occurs in 1/2 .. 1/4 of
+                # them): every script on every element kind above 64 bytes (length 3; length 4 for CORE_ELEMS, all in
+                # the thorough tier), the small kinds in rotation
+                v = [10 * x - 7 for x in range(m)]
+                e = (SMALL_ELEMS + ["sub 2 1"])[(i + 7 * m) % (len(SMALL_ELEMS) + 1)]
+                cases.append({"k": "shufs", "raws": sc, "v": v, "elem": e})
+                for e in (BIG_ELEMS if m == 3 or tier == "thorough" else CORE_ELEMS):
+                    cases.append({"k": "shufs", "raws": sc, "v": v, "elem": e})
     for m in range(0, 9):
         seeds = [0, 1, 42, M64] + [rng.next() for _ in range(8 if tier == "quick" else 60)]
         cases.append({"k": "shufr", "n": m, "seeds": seeds})
+        for _ in range(2 if tier == "quick" else 8):
+            cases.append({"k": "shufr", "n": m, "seeds": seeds[:6] + [rng.next()], "elem": pick_elem(rng, sub=False)})
     # seed sets that must reach every order
     cases.append({"k": "shufr", "n": 3, "seeds": list(range(40)), "all": True})
     cases.append({"k": "shufr", "n": 4, "seeds": list(range(120)), "all": True})
@@ -591,6 +616,13 @@ def gen_shuffles(rng, tier, cases):
     cases.append({"k": "shufr", "n": 4, "seeds": [base + i for i in range(400)], "all": True})
     if tier == "thorough":
         cases.append({"k": "shufr", "n": 5, "seeds": list(range(2500)), "all": True})
+    # ... whatever the slice holds: the same seed lists on every element kind (the line printed is the one above)
+    for e in BIG_ELEMS + SMALL_ELEMS:
+        cases.append({"k": "shufr", "n": 3, "seeds": list(range(40)), "all": True, "elem": e})
+        if e in BIG_ELEMS or tier == "thorough":
+            cases.append({"k": "shufr", "n": 4, "seeds": list(range(120)), "all": True, "elem": e})
+    for e in (["b80", "bigdrop"] if tier == "quick" else BIG_ELEMS):
+        cases.append({"k": "shufr", "n": 5, "seeds": list(range(2500)), "all": True, "elem": e})
 
 
 # ----- histories on one generator (Corr.CMix)
@@ -631,7 +663,10 @@ def random_op(rng):
     if kind == 8:
         return {"o": "k", "n": rng.choice([0, 1, 2, 7, 63, 64, 255, 256, 1000])}
     if kind < 11:
-        return {"o": "s", "n": rng.choice([0, 1, 2, 3, 3, 4, 5, 8, 13, 20])}
+        o = {"o": "s", "n": rng.choice([0, 1, 2, 3, 3, 4, 5, 8, 13, 20])}
+        if rng.chance(1, 3):
+            o["elem"] = pick_elem(rng, sub=False)      # the slice holds another element kind: the same observation
+        return o
     return {"o": "c", "how": rng.choice(HOWS)}
 
 
@@ -653,6 +688,12 @@ def gen_mix(rng, tier, cases):
         for seed in (seeds[:2] if q else seeds[:4] if len(ms) < 6 and max(ms) < 100 else seeds[:1]):
             cases.append(mix("rng", seed, [{"o": "s", "n": m} for m in ms] + r2))
         cases.append(mix(OTHER_GENS[i % len(OTHER_GENS)], rng.next(), [{"o": "s", "n": m} for m in ms[:3]] + r2))
+        # the same on slices of big elements (alternating with plain ones): the state left behind must be the same
+        if max(ms) <= 64:
+            e1, e2 = BIG_ELEMS[i % len(BIG_ELEMS)], CORE_ELEMS[i % len(CORE_ELEMS)]
+            cases.append(mix("rng", seeds[i % len(seeds)], [{"o": "s", "n": m, "elem": e1} for m in ms] + r2))
+            cases.append(mix("rng", rng.next(), [dict({"o": "s", "n": m}, **({"elem": e2} if j % 2 == 0 else {}))
+                                                 for j, m in enumerate(ms)] + r2))
     # degenerate constants on purpose (constant stream, period 2, counter): consecutive shuffles may repeat there
     for gen, ms in (("g0c", [12, 12]), ("gmax", [31, 31]), ("g11", [10, 10, 10])):
         cases.append(mix(gen, rng.next(), [{"o": "s", "n": m} for m in ms] + r2))
@@ -722,6 +763,9 @@ def gen_long(rng, tier, cases):
     # long slices: real generator
     for n in ([13, 64, 65, 257, 300] if q else [13, 63, 64, 65, 255, 256, 257, 300, 1000]):
         cases.append({"k": "shufr", "n": n, "seeds": [42, rng.next()] if n < 1000 or q else [42, rng.next(), 0]})
+    for n, e in ([(300, "b80"), (257, "bigdrop"), (65, "rec1024"), (64, "nest100")] if q else
+                 [(n, e) for n in (63, 64, 65, 255, 256, 257, 300) for e in CORE_ELEMS] + [(1000, "b80"), (1000, "drop1024")]):
+        cases.append({"k": "shufr", "n": n, "seeds": [42, rng.next()], "elem": e})
     # long slices: scripted source, raws that pick the top index / a multiple plus the top index / anything
     for m in ([257, 300] if q else [65, 256, 257, 300, 1000]):
         for kind in ((0, 1) if q else (0, 1, 2, 2)):
@@ -736,12 +780,44 @@ def gen_long(rng, tier, cases):
                     raws.append(rng.next())
             v = list(range(m)) if kind != 1 else [rng.range(-(1 << 62), 1 << 62) for _ in range(m)]
             cases.append({"k": "shufs", "raws": raws, "v": v})
+            cases.append({"k": "shufs", "raws": raws, "v": v, "elem": CORE_ELEMS[(m + kind) % len(CORE_ELEMS)]})
     # from_time(): behaves as from_seed(now)
     for _ in range(2 if q else 5):
         cases.append({"k": "time"})
 
 
-ELEMS = ["string", "arr5", "u8", "box", "sub"]
+# element kinds of the executor (harness/crates/c14/src/main.rs: with_elem!); the number in a name is size_of in bytes
+# for b<N> / rec<N> / nest<N> / nest3x<N> / al<N> / drop<N>, the number of u64 words for w<N>; bigdrop = 120 bytes, non-Copy,
+# drops counted.  BIG: more than 64 bytes (a shuffle might treat such elements differently: indirect / position-based moves),
+# CORE: the ones that get every script and every seed list.  SMALL: the neighbours at and below 64 bytes, other widths,
+# alignments above 8, heap owners.  The executor reports size_of / align_of / needs_drop (op elemsize), checked in prepare().
+CORE_ELEMS = ["b65", "b80", "b128", "b1024", "rec80", "w16", "nest100", "bigdrop"]
+BIG_ELEMS = CORE_ELEMS + ["rec72", "rec1024", "w9", "w17", "w128", "w512", "b127", "b129", "b255", "b257", "b4097", "nest80",
+                          "nest1152", "nest3x80", "nest3x125", "al128", "drop1024"]
+SMALL_ELEMS = ["string", "arr5", "u8", "box", "vec", "pair", "u16", "u32", "usize", "u128", "f64", "w8", "b8", "b15", "b17",
+               "b31", "b33", "b63", "b64", "rec24", "rec64", "nest64", "al64", "drop40", "drop64"]
+ELEMS = SMALL_ELEMS + ["sub"] + BIG_ELEMS
+
+
+def pick_elem(rng, sub=True):
+    """an element kind: half of the time a big one"""
+    if rng.chance(1, 2):
+        return rng.choice(BIG_ELEMS)
+    e = rng.choice(SMALL_ELEMS + ["sub"] if sub else SMALL_ELEMS)
+    return e if e != "sub" else "sub %d %d" % (rng.choice([0, 1, 3]), rng.choice([0, 1, 2]))
+
+
+def prepare(ctx):
+    """the table above against the executor's own size_of"""
+    for prof in PROFILES:
+        for e in BIG_ELEMS + SMALL_ELEMS:
+            t = ask(ctx.bins[prof], "elemsize " + e).split()
+            assert len(t) == 4 and t[0] == "E", "executor does not know element kind %s: %r" % (e, t)
+            size = int(t[1])
+            assert (size > 64) == (e in BIG_ELEMS), "element kind %s has %d bytes (%s build)" % (e, size, prof)
+            named = re.match(r"^(?:b|rec|nest|nest3x|al|drop)(\d+)$", e)
+            if named:
+                assert size == int(named.group(1)), "element kind %s has %d bytes (%s build)" % (e, size, prof)
 
 
 def params_in_scope(c):
@@ -823,6 +899,9 @@ def shrink(c):
             out.append(dict(c, ops=ops[len(ops) // 2:]))
             for i in range(min(len(ops), 30)):
                 out.append(dict(c, ops=ops[:i] + ops[i + 1:]))
+        for i, o in enumerate(ops[:30]):
+            if o["o"] == "s" and o.get("elem"):
+                out.append(dict(c, ops=ops[:i] + [{"o": "s", "n": o["n"]}] + ops[i + 1:]))
         for i, o in enumerate(ops[:8]):
             if o["o"] in ("k", "s") and o["n"] > 1:
                 out.append(dict(c, ops=ops[:i] + [dict(o, n=o["n"] // 2)] + ops[i + 1:]))
@@ -831,6 +910,8 @@ def shrink(c):
                 out.append(dict(c, seed=s2))
     elif k == "shufs":
         m = len(c["v"])
+        if c.get("elem"):
+            out.append({kk: v for kk, v in c.items() if kk != "elem"})
         if m > 0:
             out.append(dict(c, v=c["v"][:-1], raws=c["raws"][:max(0, m - 2)]))
         if c["v"] != list(range(m)):
@@ -839,6 +920,10 @@ def shrink(c):
             if r > i + 1:
                 out.append(dict(c, raws=c["raws"][:i] + [r % (i + 2)] + c["raws"][i + 1:]))
     elif k == "shufr":
+        if c.get("elem"):
+            out.append({kk: v for kk, v in c.items() if kk != "elem"})
+        if c.get("all") and c["n"] > 3:
+            out.append(dict(c, n=3, seeds=list(range(40))))
         if not c.get("all") and len(c["seeds"]) > 1:
             for s in c["seeds"][:20]:
                 out.append(dict(c, seeds=[s]))
@@ -912,6 +997,32 @@ def extra(ctx, known):
             viol.append({"name": "orders-debug-%d" % n, "kind": "counterexample",
                          "payload": {"what": "implementation-level search (debug build): shuffling [0..%d) over %d seeds does not "
                                              "reach all orders" % (n, ns_d), "executor_line": line, "executor_output": out}})
+    # the same count on slices of other element kinds (every kind above 64 bytes, the small ones in rotation), both builds:
+    # every order of a 3/4/5-slice is reached and the frequencies are near-equal whatever the slice holds
+    kinds = BIG_ELEMS + ([SMALL_ELEMS[(ctx.seed + i) % len(SMALL_ELEMS)] for i in range(4)] if ctx.tier == "quick" else SMALL_ELEMS)
+    for e in kinds:
+        for (n, ns_e) in ((3, 1200), (4, 2400), (5, 6000)):
+            for prof in ("release", "debug"):
+                if prof == "debug" and ctx.tier == "quick" and (n != 4 or e not in CORE_ELEMS):
+                    continue
+                seed0 = 0 if prof == "debug" else (ctx.seed * 0x9E3779B97F4A7C15 + n) & M64
+                line = "orders %d %d %d %s" % (n, ns_e, seed0, e)
+                out = ask(ctx.bins[prof], line)
+                t = out.split()
+                f = math.factorial(n)
+                bound = (f - 1) + 6.0 * math.sqrt(2.0 * (f - 1)) + 10.0
+                ok = len(t) == 5 and t[0] == "O" and t[1] == str(f) and int(t[2]) / 1000.0 <= bound
+                cov["shuffle_orders"].append({"len": n, "seeds": ns_e, "first_seed": seed0, "profile": prof, "elements": e,
+                                              "orders_reached": int(t[1]) if len(t) == 5 else None, "of": f,
+                                              "chi2": int(t[2]) / 1000.0 if len(t) == 5 else None, "chi2_bound": round(bound, 1)})
+                if not ok:
+                    viol.append({"name": "orders-%s-%d-%s" % (e, n, prof), "kind": "counterexample",
+                                 "payload": {"what": "implementation-level search (%s build): shuffling a %d-slice of tagged elements of "
+                                                     "kind %s (harness/crates/c14: with_elem!) with Rng::from_seed(s) for the %d consecutive "
+                                                     "seeds from %d does not reach all %d orders with near-equal frequency (output: O "
+                                                     "orders_reached chi2*1000 min_count max_count; chi2 bound %.1f; O damaged <seed> = an "
+                                                     "element came back damaged, duplicated or dropped)" % (prof, n, e, ns_e, seed0, f, bound),
+                                             "executor_line": line, "executor_output": out}})
     for n in (4, 5, 6):
         for seed0 in (0, (ctx.seed * 0x9E3779B97F4A7C15) & M64):
             line = "orders %d %d %d" % (n, nseeds, seed0)
@@ -990,7 +1101,9 @@ MANIFEST = {
             "binary64 values, proved on integers in ProofsValid.v), u64 raws, equal copies and permutation results reach "
             "the implementation on every sampled case by proof, not only by a second computation; the same for every observation "
             "of a history of mixed operations on one generator (draws of several types, f64 draws, raws, long dropped runs, "
-            "consecutive shuffles, duplicates; any constants A, C). PARTIAL: near-equal frequency of permutations and aperiodicity are statistical; finite reachability is "
+            "consecutive shuffles, duplicates; any constants A, C). Shuffle is generic in the element type: the same cases run on slices of 50 element "
+            "kinds (1..4097 bytes, over-aligned, nested arrays, heap owners, records with counted drops) whose tags must print the line "
+            "of the i64 run, including the seed lists that must reach every order of a 3/4/5-slice. PARTIAL: near-equal frequency of permutations and aperiodicity are statistical; finite reachability is "
             "proved, the rest is measured by a search (chi-square over seeds, period detection).",
     "level_note": "Trusted: Coq kernel + vm_compute; the Rust executor and the Python case printer; theorems are about the model, "
                   "the correspondence is sampled (exhaustive over 8-bit range bounds in the thorough tier).",
